@@ -37,6 +37,7 @@ class Handle(object):
     self.thr_writer = None        # ('fit'|'set'|'calibrate', info)
     self.thr_ops = []             # threshold writers since the last fit
     self.n_fits = 0
+    self.dirty = False            # set_params since the last fit
     self.d_fit = None
     self.history = []
 
@@ -103,6 +104,12 @@ class Machine(object):
       idx[1] = idx[2]                    # duplicated tuple
       if t == 2 and m >= 4:
         idx[3] = idx[2][::-1]            # swapped pair
+      if t == 3 and m >= 4:
+        idx[3, 2] = idx[3, 1]            # b == c: exact tie d(a,b) == d(a,c)
+      if t == 4 and m >= 4:
+        idx[3, 2:] = idx[3, :2]          # (c,d) == (a,b): exact tie
+      if t == 4 and m >= 5:
+        idx[4, 2:] = idx[4, 1::-1]       # (c,d) == (b,a)
     return D, idx
 
   # ------------------------------------------------------------------- run
@@ -222,6 +229,7 @@ class Machine(object):
     live["handle"] = h
     live["dist_before"] = None
     self._call(ev, live, h.est.set_params, **params)
+    h.dirty = True
     if ev["outcome"] == "ok":
       h.params_desc.update(op.get("params", {}))
       for k, v in params.items():
@@ -264,9 +272,12 @@ class Machine(object):
     arg_dg = [digest(a) for a in args] + [digest(kwargs[k]) for k in sorted(kwargs)]
     amb0 = world.ambient_snapshot()
     store_calls0 = len(h.store.calls) if h.store else 0
-    with world.DrawObserver() as obs:
+    live["state_before"] = state_digest(h.est)
+    with world.DrawObserver() as obs, world.GlassoSeam() as gs:
       out = self._call(ev, live, h.est.fit, *args, **kwargs)
     self.seam_missing += obs.missing
+    live["solver_calls"] = len(gs.calls)
+    live["rng_requests"] = len(obs.created)
     live["draws"] = obs.total_draws()
     live["draw_streams"] = [r.stream_digest() for r in obs.created]
     ev["draws"] = live["draws"]
@@ -280,6 +291,7 @@ class Machine(object):
     if h.store:
       ev["store_calls"] = len(h.store.calls) - store_calls0
     h.n_fits += 1
+    h.dirty = False
     ok = ev["outcome"] == "ok"
     if ok and not op.get("malformed"):
       h.defined = True
@@ -338,6 +350,39 @@ class Machine(object):
       h.thr_ops.append(("set", val))
       ev["thr"] = float(h.est.threshold_).hex() if hasattr(h.est, "threshold_") else None
 
+  def op_sweep(self, op, ev, live):
+    """set_threshold over an increasing list of values, predicting the same
+    probe after each: the raw material of the monotonicity oracle."""
+    h = self.handles.get(op["h"])
+    if h is None or h.est is None or not hasattr(h.est, "set_threshold") \
+        or not h.defined:
+      ev["outcome"] = "skip"
+      return
+    live["handle"] = h
+    D, idx = self.probe(dict(op["probe"], t=2), h.name)
+    pairs = D.S[idx]
+    try:
+      vals = [self._threshold_value(h, v) for v in op["values"]]
+    except Exception:
+      ev["outcome"] = "skip"
+      return
+    vals = sorted(vals, key=float)
+    rec = []
+    ev["outcome"] = "ok"
+    for v in vals:
+      try:
+        h.est.set_threshold(v)
+        rec.append((v, h.est.threshold_, h.est.predict(pairs),
+                    -h.est.decision_function(pairs)))
+      except Exception as e:
+        ev["outcome"] = "exc:" + type(e).__name__
+        live["exc"] = e
+        break
+    if rec:
+      h.thr_ops.append(("set", rec[-1][0]))
+    live["sweep"] = rec
+    ev["out"] = digest([[float(r[1]), r[2]] for r in rec])
+
   def calib_data(self, h, op):
     D = self.dataset(op["data"])
     rs = np_stream(op.get("seed", 0), "calib")
@@ -372,6 +417,7 @@ class Machine(object):
     with world.DrawObserver() as obs:
       self._call(ev, live, h.est.calibrate_threshold, pairs, y, **cp)
     live["draws"] = obs.total_draws()
+    live["rng_requests"] = len(obs.created)
     live["store_calls"] = (len(h.store.calls) - store0) if h.store else 0
     live["args_modified"] = [n for n, a, b in (("pairs_valid", dg[0], digest(pairs)),
                                                ("y_valid", dg[1], digest(y))) if a != b]
